@@ -111,7 +111,7 @@ pub fn canon_version(v: &Version) -> String {
     }
 }
 
-fn bd_tok(b: &Bd) -> String {
+pub fn bd_tok(b: &Bd) -> String {
     match b {
         Bd::U => "u".into(),
         Bd::I(t) => format!("i:{}", rel_of(t)),
